@@ -194,6 +194,33 @@ func NewTerms(w *World) *Terms {
 		rootBusy: map[*ssa.Function]bool{}, soleCS: map[*ssa.Function]ssa.CallInstruction{}}
 }
 
+// PlainRoot returns a context-free root frame of fn: parameters are symbolic even when fn has a single call site
+// (for rules that reason about fn's own parameters).
+func (tm *Terms) PlainRoot(fn *ssa.Function) *Frame {
+	id := "P:" + fn.String()
+	if f := tm.frames[id]; f != nil {
+		return f
+	}
+	f := &Frame{Fn: fn, id: id}
+	tm.frames[id] = f
+	if par := fn.Parent(); par != nil {
+		var made *ssa.MakeClosure
+		n := 0
+		for _, b := range par.Blocks {
+			for _, in := range b.Instrs {
+				if mc, ok := in.(*ssa.MakeClosure); ok && mc.Fn == fn {
+					made = mc
+					n++
+				}
+			}
+		}
+		if n == 1 {
+			f.Closure, f.ClosureFrame = made, tm.PlainRoot(par)
+		}
+	}
+	return f
+}
+
 // Root returns the root frame of fn (parameters are symbolic).
 func (tm *Terms) Root(fn *ssa.Function) *Frame {
 	if f := tm.roots[fn]; f != nil {
@@ -795,7 +822,60 @@ func (tm *Terms) OperandAt(fr *Frame, at ssa.Instruction, v ssa.Value) *Term {
 			return mk("new", "", v, tm.snapshot(fr, a, cleanPath(path), at))
 		}
 	}
-	return tm.Of(fr, v)
+	t := tm.Of(fr, v)
+	// a pointer to a record obtained from elsewhere (a constructor's result, a type assertion) whose fields were then
+	// assigned through it: the assignments that are certain to have happened before `at` belong to the description
+	if at != nil && isPointer(v.Type()) && structOf(v.Type()) != nil {
+		if _, isAlloc := v.(*ssa.Alloc); !isAlloc {
+			if ov := tm.pointerStores(fr, at, v); len(ov) > 0 {
+				return mk("upd", "", v, append([]*Term{t}, ov...)...)
+			}
+		}
+	}
+	return t
+}
+
+// pointerStores: fset terms for the stores `v.F = x` (v a pointer-typed SSA value) that dominate `at`; the last
+// dominating store to a field wins.
+func (tm *Terms) pointerStores(fr *Frame, at ssa.Instruction, v ssa.Value) []*Term {
+	refs := v.Referrers()
+	if refs == nil {
+		return nil
+	}
+	last := map[string]*ssa.Store{}
+	var order []string
+	for _, r := range *refs {
+		fa, ok := r.(*ssa.FieldAddr)
+		if !ok || fa.X != v {
+			continue
+		}
+		st := structOf(fa.X.Type())
+		if st == nil {
+			continue
+		}
+		name := st.Field(fa.Field).Name()
+		if frefs := fa.Referrers(); frefs != nil {
+			for _, fr2 := range *frefs {
+				s, ok := fr2.(*ssa.Store)
+				if !ok || s.Addr != ssa.Value(fa) || s.Parent() != at.Parent() || !instrDominates(s, at) {
+					continue
+				}
+				if prev := last[name]; prev == nil {
+					order = append(order, name)
+					last[name] = s
+				} else if instrDominates(prev, s) {
+					last[name] = s
+				}
+			}
+		}
+	}
+	sort.Strings(order)
+	var out []*Term
+	for _, n := range order {
+		s := last[n]
+		out = append(out, mk("fset", n, v, tm.OperandAt(fr, s, s.Val)))
+	}
+	return out
 }
 
 func cleanPath(p []string) []string { return p }
